@@ -30,6 +30,7 @@ type Claims struct {
 	Assumptions []string
 	Level       string
 	Bounded     []string // names of bounded stand-ins (run on every check)
+	OnlyKinds   []string // when set, only obligations of these kinds are claimed
 	Notes       []string
 }
 
@@ -69,6 +70,13 @@ func readClaims(path string) (*Claims, error) {
 			c.Assumptions = append(c.Assumptions, rest)
 		case "level":
 			c.Level = rest
+		case "only-kinds":
+			// restrict the claimed set to obligations of these kinds (prefix match)
+			for _, k := range strings.Split(rest, ",") {
+				if k = strings.TrimSpace(k); k != "" {
+					c.OnlyKinds = append(c.OnlyKinds, k)
+				}
+			}
 		case "bounded":
 			c.Bounded = append(c.Bounded, rest)
 		case "note":
@@ -661,6 +669,17 @@ func rewriteClaims(root, id string, claims *Claims, ctx *Ctx, obls []*Obligation
 	b.WriteString(strings.Join(keep, "\n") + "\n")
 	n := 0
 	for _, d := range ds {
+		if len(claims.OnlyKinds) > 0 {
+			keep := false
+			for _, k := range claims.OnlyKinds {
+				if strings.HasPrefix(d.O.Kind, k) {
+					keep = true
+				}
+			}
+			if !keep {
+				continue
+			}
+		}
 		if d.OK() && (d.R.TimeS < 3 || d.O.Expect == "sat") {
 			fmt.Fprintf(&b, "claim %s\n", d.O.Name)
 			n++
